@@ -1,0 +1,28 @@
+//go:build verif
+
+// Contracts for the in-memory block's upload path (properties C01, C04).
+// Comment-only file.
+package local
+
+// The writer fills exactly the space that was allocated: written(w) bytes have
+// been stored, len(w.data) remain.
+//@ pure imwInv(w) = 0 <= written(w) && written(w) + len(w.data) == wSize(w)
+//@ typeinv inMemoryBlockWriter(w) = imwInv(w)
+
+//@ func (*inMemoryBlockWriter).Write
+//@   requires imwInv(w)
+//@   exitghost written(w) := old(written(w)) + result0
+//@   ensures [inv] imwInv(w)
+//@   ensures [count] 0 <= result0 && result0 <= len(p)
+//@   ensures [b-size-enforced] err == nil <==> old(written(w)) + len(p) <= wSize(w)
+//@   ensures [complete] err == nil ==> result0 == len(p)
+
+// The writer closure of inMemoryBlock.Put.
+//@ func (*inMemoryBlock).Put$1
+//@   requires b != nil && 0 <= offsetBytes && sizeBytes >= 0 && offsetBytes + sizeBytes <= len(ib.data)
+//@   callghost IntoWriter written(w) := 0
+//@   callghost IntoWriter wSize(w) := len(w.data)
+
+//@ func (*inMemoryBlock).Put$1$1
+//@   ensures [offset] result0 == offsetBytes
+//@   ensures [error-propagated] (result1 == nil) <==> (err == nil)
